@@ -38,6 +38,10 @@ def cases(tier, variants):
     mcs = (1, 2, 3, 5) if tier == "thorough" else (1, 3, 5)
     for b in H.base_runs(variants, maxcors=mcs):
         yield dict(b, part="base")
+    # the same, with an update function that really redefines the objective (rescales it
+    # by 0.5 after iteration 3): states, stopped runs and restarts all use it
+    for b in H.base_runs(variants, maxcors=(3,), small=(tier == "quick")):
+        yield dict(b, part="base", upd="scale3")
 
 
 def run(case):
@@ -48,16 +52,38 @@ def run(case):
     def sub(j):
         return dict({k: v for k, v in case.items() if k != "part"}, part="base", crash=j)
 
+    def fresh(fault=None, start_scaled=False):
+        """fresh user callables (with their own redefinition state) for one run"""
+        obs = F.Obs(p.f, p.g, p.lb, p.ub, fault=fault)
+        if case.get("upd") != "scale3":
+            return obs, dict(fun=obs.fun, jac=obs.jac)
+        sc = [0.5 if start_scaled else 1.0]
+        ncall = [0]
+
+        def fun(x):
+            return sc[0] * obs.fun(x)
+
+        def jac(x):
+            return sc[0] * obs.jac(x)
+
+        def upd(x, f0, f0_old, grad, X, G):
+            ncall[0] += 1
+            if ncall[0] - 1 == 3 and not start_scaled:
+                sc[0] = 0.5
+                return 0.5 * f0, 0.5 * f0_old, 0.5 * grad, type(G)(0.5 * g for g in G)
+            return f0, f0_old, grad, G
+        return obs, dict(fun=fun, jac=jac, update_fun_def=upd, ftol=-10.0)
+
     # uninterrupted reference run, with and without a callback
-    obs0 = F.Obs(p.f, p.g, p.lb, p.ub)
-    ref = H.solve(p, case, K, fun=obs0.fun, jac=obs0.jac)
+    obs0, kw0 = fresh()
+    ref = H.solve(p, case, K, **kw0)
     states = []        # (live object, deep copy, x argument copy)
 
     def cb(x, st):
         states.append((st, copy.deepcopy(st), np.array(x, copy=True)))
         return False
-    obs1 = F.Obs(p.f, p.g, p.lb, p.ub)
-    withcb = H.solve(p, case, K, fun=obs1.fun, jac=obs1.jac, callback=cb)
+    obs1, kw1 = fresh()
+    withcb = H.solve(p, case, K, callback=cb, **kw1)
     nex += 2
     if H.same_state(withcb, ref) or obs0.calls != obs1.calls \
             or str(withcb.message) != str(ref.message):
@@ -70,7 +96,7 @@ def run(case):
     iter_x = {}
     runs = {}
     for k in range(1, int(ref.nit) + 1):
-        runs[k] = H.solve(p, case, k)
+        runs[k] = H.solve(p, case, k, **fresh()[1])
         nex += 1
         iter_x[k] = np.array(runs[k].x, copy=True)
     kprev = 0
@@ -110,9 +136,9 @@ def run(case):
             if obsc.ncall == _j:
                 raise Crash()
             obsc.ncall += 1
-        obsc = F.Obs(p.f, p.g, p.lb, p.ub, fault=fault)
+        obsc, kwc = fresh(fault=fault)
         try:
-            H.solve(p, case, K, fun=obsc.fun, jac=obsc.jac, callback=cb2)
+            H.solve(p, case, K, callback=cb2, **kwc)
             viol.append(V("crash_not_propagated", _case=sub(j)))
             continue
         except Crash:
@@ -130,7 +156,10 @@ def run(case):
         k = state_k[len(held) - 1] if len(held) <= len(state_k) else None
         if k is not None and k + 1 in iter_x and k == int(snap.nit):
             try:
-                r = H.solve(p, case, k + 1, checkpoint=live)
+                # after the redefinition (update call 3 = after iteration 3) the user
+                # restarts on the redefined objective
+                r = H.solve(p, case, k + 1, checkpoint=live,
+                            **fresh(start_scaled=(k >= 3))[1])
                 nex += 1
                 err = H.relerr(r.x, iter_x[k + 1])
                 if err > TOL:
